@@ -77,6 +77,22 @@ check("C14", "model_checking",
       "delay-bounded schedule DFS on the real Remote under a controlled scheduler",
       "DESIGN.md §4 C14")
 
+check("C15", "model_checking",
+      "Bounded-exhaustive message grammars applied to the real Server / Remote / HTTPServer with a live pool world: every production method (pool, payment, status, agent) x arities 0..n+1 x 20 JSON value kinds per position; correctly signed requests carrying hostile node URIs, peer descriptions and counts (incl. 2^31, 2^62, negative) through the real signature check; 22 envelope shapes and 125 reply shapes sent to a waiting Remote.Call under the controlled scheduler (virtual time-outs, execution drained); every prefix and 12 byte substitutions at every position of 6 representative messages through the stream codec, Server.Handle and HTTPServer. Oracle: no panic (also in spawned goroutines), one well-formed reply per request id, vipnode_ping still answered on the same server/connection, waiting callers return, the worker process survives (address-space limit makes unbounded allocations fatal and visible).",
+      "Finite grammars; malformed byte streams and non-message JSON may cost the sender its own connection (not judged).",
+      "bounded-exhaustive input-grammar enumeration on real code (in-process and under the controlled scheduler)",
+      "DESIGN.md §4 C15")
+check("C16", "model_checking",
+      "Exhaustive over finite alphabets: instrumented receivers registered under 3 prefixes x 9 allow-lists and probed with every case/prefix variant of every method name (exported, unexported, promoted from an embedded field, unsupported argument types, other receivers' names); every method called with every arity 0..n+1 and 9 JSON kinds per position, judged against encoding/json decodability, with invocation counters proving that rejected calls run nothing; the production registration in process with a pool digest before/after; and the real pool binary built from the working tree, probed over HTTP and WebSocket with every exported method name of VipnodePool / PaymentService / PoolStatus (by reflection) and guessed helper names in 4 prefixes x 4 spellings: callable set must equal the 10 documented names on both transports.",
+      "Finite name/kind alphabets; JSON null in non-pointer positions observed only.",
+      "exhaustive name x arity x kind enumeration on real code and on the real binary",
+      "DESIGN.md §4 C16")
+check("C17", "model_checking",
+      "For every message sequence the bytes (stream codec, HTTP request and response bodies) or WebSocket frames (gorilla and gobwas codecs, both directions, produced by the real codec after a real handshake over an in-memory connection) are delivered to the real reader split at every set of <=2 (quick) / <=3 (thorough) candidate offsets, including no cut at all, ~4*10^5 deliveries in the quick tier; the sequence read must equal the sequence written, then nothing more. Three concurrent writers (one message larger than the 4 kB write buffer) on the gorilla codec are explored under the controlled scheduler with every net.Conn write and every statement of the codec as scheduling points; the captured wire bytes are then read back by the peer.",
+      "Candidate offsets: all for streams <=420 bytes, otherwise frame/message boundaries -4..+14, every 997th byte and the 4096 edge; delay bound 2/3 for the writers.",
+      "exhaustive cut-set enumeration + delay-bounded schedule DFS of concurrent writers",
+      "DESIGN.md §4 C17")
+
 ALL = ["C%02d" % i for i in range(1, 21)]
 NA_REASON = "check not built yet (work in progress; see DESIGN.md §4 for the planned model-checking design)"
 
